@@ -9,19 +9,15 @@ Definition gen_spec (w : world) (p : proxy) (r : req) (rs : list sres) : list en
                       then match build w (p_cluster p) (eff_fmt w p) sr with Some e => [e] | None => [] end
                       else []) rs.
 
-(* every cache entry is what [build] yields for some well-formed resource with that key, in some
-   key format f related to the hash component of the key by [ok] *)
-Definition cache_inv (ok : string -> N -> Prop) (w : world) (c : cache) : Prop :=
+(* every cache entry is what [build] yields for some well-formed resource and provider with that key *)
+Definition cache_inv (w : world) (c : cache) : Prop :=
   forall k d e, In (k, (d, e)) c ->
-    exists sr h f, k = cache_key sr h /\ wf_sres sr /\ no_slash h = true /\ ok h f /\
-                   build w (sr_cluster sr) f sr = Some e.
+    exists sr f, k = cache_key sr (pkp_hash w f) /\ wf_sres sr /\ build w (sr_cluster sr) f sr = Some e.
 
-Definition functional (ok : string -> N -> Prop) : Prop := forall h f f', ok h f -> ok h f' -> f = f'.
-
-Lemma cache_inv_nil (ok : string -> N -> Prop) w : cache_inv ok w [].
+Lemma cache_inv_nil w : cache_inv w [].
 Proof. intros k d e []. Qed.
 
-Lemma cache_inv_clear (ok : string -> N -> Prop) w ks c : cache_inv ok w c -> cache_inv ok w (cache_clear ks c).
+Lemma cache_inv_clear w ks c : cache_inv w c -> cache_inv w (cache_clear ks c).
 Proof.
   intros H k d e Hin. unfold cache_clear in Hin. apply filter_In in Hin. destruct Hin as [Hin _].
   eapply H; eauto.
@@ -35,65 +31,60 @@ Proof.
   - intros H. destruct (IH H) as [d Hd]. exists d. auto.
 Qed.
 
-(* the key format changes nothing but the format *)
-Lemma build_refmt w cl f f' sr e :
-  build w cl f sr = Some e -> exists e', build w cl f' sr = Some e' /\ erase e = erase e'.
+(* consequences of wf_world *)
+Lemma wf_world_clusters w : wf_world w = true -> forallb no_slash (clusters w) = true.
+Proof. unfold wf_world. intros H. repeat (apply andb_true_iff in H; destruct H as [H ?]). exact H. Qed.
+
+Lemma pkp_hash_no_slash w f : wf_world w = true -> no_slash (pkp_hash w f) = true.
 Proof.
-  unfold build. intros H.
-  destruct (sr_type sr).
-  - destruct (is_ca_name (sr_name sr)).
-    + destruct (get_ca_cert w cl (sr_name sr) (sr_ns sr)); inversion H; subst. eexists. split; reflexivity.
-    + destruct (get_cert_info w cl (sr_name sr) (sr_ns sr)); inversion H; subst. eexists. split; reflexivity.
-  - destruct (get_configmap_ca w (config_cluster w) (sr_name sr) (sr_ns sr)); inversion H; subst.
-    eexists. split; reflexivity.
-  - destruct (is_ca_name (sr_name sr)).
-    + destruct (get_ca_cert w (config_cluster w) (sr_name sr) (sr_ns sr)); inversion H; subst. eexists. split; reflexivity.
-    + destruct (get_cert_info w (config_cluster w) (sr_name sr) (sr_ns sr)); inversion H; subst. eexists. split; reflexivity.
-  - destruct (is_ca_name (sr_name sr)).
-    + destruct (get_ca_cert w cl (sr_name sr) (sr_ns sr)); inversion H; subst. eexists. split; reflexivity.
-    + destruct (get_cert_info w cl (sr_name sr) (sr_ns sr)); inversion H; subst. eexists. split; reflexivity.
+  unfold wf_world. intros H. repeat (apply andb_true_iff in H; destruct H as [H ?]).
+  destruct f; cbn; auto.
+Qed.
+
+Lemma pkp_hash_inj w f f' : wf_world w = true -> pkp_hash w f = pkp_hash w f' -> f = f'.
+Proof.
+  unfold wf_world. intros H. repeat (apply andb_true_iff in H; destruct H as [H ?]).
+  repeat match goal with H : negb (String.eqb _ _) = true |- _ =>
+    apply negb_true_iff in H; apply String.eqb_neq in H end.
+  destruct f, f'; cbn; intros E; try reflexivity; exfalso; auto.
 Qed.
 
 (* resources on which the proxy-cluster controller choice of [generate] is the resource's own cluster *)
 Definition good_sres (w : world) (pcl : string) (sr : sres) : Prop :=
   wf_sres sr /\ forall f, build w pcl f sr = build w (sr_cluster sr) f sr.
 
-Lemma gen_loop_spec (ok : string -> N -> Prop) w p r rs :
-  no_slash (p_pkp p) = true -> ok (p_pkp p) (eff_fmt w p) ->
+Lemma gen_loop_spec w p r rs :
+  wf_world w = true ->
   (forall sr, In sr rs -> good_sres w (p_cluster p) sr) ->
-  forall c, cache_inv ok w c ->
-    map erase (fst (gen_loop w p r rs c)) = map erase (gen_spec w p r rs) /\
-    (functional ok -> fst (gen_loop w p r rs c) = gen_spec w p r rs) /\
-    cache_inv ok w (snd (gen_loop w p r rs c)).
+  forall c, cache_inv w c ->
+    fst (gen_loop w p r rs c) = gen_spec w p r rs /\ cache_inv w (snd (gen_loop w p r rs c)).
 Proof.
-  intros Hh Hok. induction rs as [|sr rest IH]; intros Hg c Hc; cbn [gen_loop gen_spec flat_map].
-  - split; [reflexivity|]. split; [reflexivity|exact Hc].
+  intros Hw. induction rs as [|sr rest IH]; intros Hg c Hc; cbn [gen_loop gen_spec flat_map].
+  - split; [reflexivity|exact Hc].
   - assert (Hrest : forall s, In s rest -> good_sres w (p_cluster p) s) by (intros s Hs; apply Hg; right; exact Hs).
     destruct (Hg sr (or_introl eq_refl)) as [Wsr Bsr].
     destruct (wanted r sr); cbn [negb].
     2:{ apply IH; auto. }
-    destruct (cache_get (cache_key sr (p_pkp p)) c) as [e|] eqn:G.
-    + (* hit: the entry is what build would give, up to the key format *)
+    destruct (cache_get (cache_key sr (p_pkp w p)) c) as [e|] eqn:G.
+    + (* hit: the entry is what build would give *)
       destruct (cache_get_in _ _ _ G) as [d Hin].
-      destruct (Hc _ _ _ Hin) as (sr' & h' & f' & Ek & W' & Hh' & Hok' & B').
-      destruct (cache_key_inj sr sr' (p_pkp p) h' Wsr W' Hh Hh' Ek) as [<- <-].
-      destruct (build_refmt w (sr_cluster sr) f' (eff_fmt w p) sr e B') as (e' & Be' & Er).
-      rewrite Bsr, Be'.
-      destruct (IH Hrest c Hc) as (E1 & E2 & E3).
-      destruct (gen_loop w p r rest c) as [out c'] eqn:GL. cbn [fst snd app map] in *.
-      split; [rewrite E1, Er; reflexivity|]. split; [|exact E3].
-      intros Hf. rewrite (E2 Hf). f_equal.
-      assert (f' = eff_fmt w p) by (eapply Hf; eauto). subst f'. congruence.
+      destruct (Hc _ _ _ Hin) as (sr' & f' & Ek & W' & B').
+      unfold p_pkp in Ek.
+      destruct (cache_key_inj sr sr' _ _ Wsr W' (pkp_hash_no_slash w _ Hw) (pkp_hash_no_slash w _ Hw) Ek) as [<- Eh].
+      apply (pkp_hash_inj w _ _ Hw) in Eh. subst f'.
+      rewrite Bsr, B'.
+      destruct (IH Hrest c Hc) as [E1 E2].
+      destruct (gen_loop w p r rest c) as [out c'] eqn:GL. cbn [fst snd] in *.
+      split; [rewrite E1; reflexivity|exact E2].
     + destruct (build w (p_cluster p) (eff_fmt w p) sr) as [e|] eqn:B.
-      * set (c1 := if req_stores r then (cache_key sr (p_pkp p), (related (sres_ckey sr), e)) :: c else c).
-        assert (Hc1 : cache_inv ok w c1).
+      * set (c1 := if req_stores r then (cache_key sr (p_pkp w p), (related (sres_ckey sr), e)) :: c else c).
+        assert (Hc1 : cache_inv w c1).
         { unfold c1. destruct (req_stores r); [|exact Hc].
           intros k d e0 [Heq|Hin]; [|eapply Hc; eauto].
-          inversion Heq; subst. exists sr, (p_pkp p), (eff_fmt w p). rewrite <- Bsr. auto. }
-        destruct (IH Hrest c1 Hc1) as (E1 & E2 & E3).
-        destruct (gen_loop w p r rest c1) as [out c'] eqn:GL. cbn [fst snd app map] in *.
-        split; [rewrite E1; reflexivity|]. split; [|exact E3].
-        intros Hf. rewrite (E2 Hf). reflexivity.
+          inversion Heq; subst. exists sr, (eff_fmt w p). rewrite <- Bsr. auto. }
+        destruct (IH Hrest c1 Hc1) as [E1 E2].
+        destruct (gen_loop w p r rest c1) as [out c'] eqn:GL. cbn [fst snd] in *.
+        split; [rewrite E1; reflexivity|exact E2].
       * apply IH; auto.
 Qed.
 
@@ -115,7 +106,7 @@ Definition generate_spec (w : world) (p : proxy) (names : list string) (r : req)
 
 Lemma known_cluster_no_slash w c : wf_world w = true -> known_cluster w c = true -> no_slash c = true.
 Proof.
-  unfold wf_world, known_cluster. intros Hw Hk.
+  intros Hw Hk. apply wf_world_clusters in Hw. unfold known_cluster in Hk.
   apply existsb_exists in Hk. destruct Hk as [x [Hin E]]. apply String.eqb_eq in E. subst.
   rewrite forallb_forall in Hw. apply Hw. exact Hin.
 Qed.
@@ -143,18 +134,15 @@ Proof.
   - discriminate.
 Qed.
 
-Lemma generate_spec_ok (ok : string -> N -> Prop) w c p names r :
-  wf_world w = true -> wf_proxy p = true -> ok (p_pkp p) (eff_fmt w p) -> cache_inv ok w c ->
-  map erase (fst (generate w c p names r)) = map erase (generate_spec w p names r) /\
-  (functional ok -> fst (generate w c p names r) = generate_spec w p names r) /\
-  cache_inv ok w (snd (generate w c p names r)).
+Lemma generate_spec_ok w c p names r :
+  wf_world w = true -> wf_proxy p = true -> cache_inv w c ->
+  fst (generate w c p names r) = generate_spec w p names r /\ cache_inv w (snd (generate w c p names r)).
 Proof.
-  intros Hw Hp Hok Hc. unfold generate, generate_spec. unfold wf_proxy in Hp.
-  apply andb_true_iff in Hp. destruct Hp as [Hh Hi].
-  destruct (verified p) as [i|]; [|split; [reflexivity|split; [reflexivity|exact Hc]]].
-  destruct (negb (needs_push r)); [split; [reflexivity|split; [reflexivity|exact Hc]]|].
-  destruct (known_cluster w (p_cluster p)) eqn:K1; cbn [negb]; [|split; [reflexivity|split; [reflexivity|exact Hc]]].
-  destruct (known_cluster w (config_cluster w)) eqn:K2; cbn [negb]; [|split; [reflexivity|split; [reflexivity|exact Hc]]].
+  intros Hw Hp Hc. unfold generate, generate_spec. unfold wf_proxy in Hp.
+  destruct (verified p) as [i|]; [|split; [reflexivity|exact Hc]].
+  destruct (negb (needs_push r)); [split; [reflexivity|exact Hc]|].
+  destruct (known_cluster w (p_cluster p)) eqn:K1; cbn [negb]; [|split; [reflexivity|exact Hc]].
+  destruct (known_cluster w (config_cluster w)) eqn:K2; cbn [negb]; [|split; [reflexivity|exact Hc]].
   apply gen_loop_spec; auto.
   intros sr Hin. eapply authorized_resources_good; eauto using known_cluster_no_slash.
 Qed.
@@ -167,69 +155,32 @@ Definition gens (ops : list op) : list (proxy * list string * req) :=
 Definition spec_of (w : world) (g : proxy * list string * req) : list entry :=
   match g with (p, n, r) => generate_spec w p n r end.
 
-Definition ok_op (ok : string -> N -> Prop) (w : world) (o : op) : Prop :=
-  match o with OGen p _ _ => ok (p_pkp p) (eff_fmt w p) | _ => True end.
-
-Lemma run_pointwise (ok : string -> N -> Prop) w ops :
-  wf_world w = true -> forallb wf_op ops = true -> Forall (ok_op ok w) ops ->
-  forall c, cache_inv ok w c ->
-    map (map erase) (run w c ops) = map (map erase) (map (spec_of w) (gens ops)) /\
-    (functional ok -> run w c ops = map (spec_of w) (gens ops)) /\
-    cache_inv ok w (run_cache w c ops).
+Lemma run_pointwise w ops :
+  wf_world w = true -> forallb wf_op ops = true ->
+  forall c, cache_inv w c ->
+    run w c ops = map (spec_of w) (gens ops) /\ cache_inv w (run_cache w c ops).
 Proof.
-  intros Hw. induction ops as [|o rest IH]; intros Hops Hok c Hc.
-  - split; [reflexivity|]. split; [reflexivity|exact Hc].
+  intros Hw. induction ops as [|o rest IH]; intros Hops c Hc.
+  - split; [reflexivity|exact Hc].
   - cbn [forallb] in Hops. apply andb_true_iff in Hops. destruct Hops as [Ho Hrest].
-    inversion Hok as [|? ? Hok1 Hokr]; subst.
     destruct o as [p names r| |ks]; cbn [run run_cache gens flat_map app map].
-    + destruct (generate_spec_ok ok w c p names r Hw Ho Hok1 Hc) as (E1 & E2 & E3).
+    + destruct (generate_spec_ok w c p names r Hw Ho Hc) as [E1 E2].
       destruct (generate w c p names r) as [out c'] eqn:G. cbn [fst snd] in *.
-      destruct (IH Hrest Hokr c' E3) as (R1 & R2 & R3). split; [|split; [|exact R3]].
-      * cbn [map spec_of]. rewrite E1. f_equal. exact R1.
-      * intros Hf. cbn [map spec_of]. rewrite (E2 Hf). f_equal. exact (R2 Hf).
+      destruct (IH Hrest c' E2) as [R1 R2]. split; [|exact R2].
+      cbn [spec_of]. rewrite E1. f_equal. exact R1.
     + apply IH; auto using cache_inv_nil.
     + apply IH; auto using cache_inv_clear.
 Qed.
 
-Definition any_fmt : string -> N -> Prop := fun _ _ => True.
-Definition fmt_is (F : string -> N) : string -> N -> Prop := fun h f => f = F h.
-
-Lemma fmt_is_functional F : functional (fmt_is F).
-Proof. intros h f f' -> ->. reflexivity. Qed.
-
-Lemma ok_any w ops : Forall (ok_op any_fmt w) ops.
-Proof. apply Forall_forall. intros o _. destruct o; exact I. Qed.
-
-Lemma ok_fmt_is F w ops : forallb (fmt_op F w) ops = true -> Forall (ok_op (fmt_is F) w) ops.
-Proof.
-  intros H. apply Forall_forall. intros o Hin. rewrite forallb_forall in H. specialize (H o Hin).
-  destruct o as [p n r| |]; cbn; auto. cbn in H. unfold fmt_by_hash in H. apply N.eqb_eq in H. exact H.
-Qed.
-
-(* the response to a request does not depend on what happened on the cache before: always as to which
-   names are answered with whose certificate / key ... *)
-Lemma order_independent_erased w ops p names r :
+(* the response to a request does not depend on what happened on the cache before *)
+Lemma order_independent w ops p names r :
   wf_world w = true -> forallb wf_op ops = true -> wf_proxy p = true ->
-  map erase (fst (generate w (run_cache w [] ops) p names r)) = map erase (fst (generate w [] p names r)).
-Proof.
-  intros Hw Hops Hp.
-  destruct (run_pointwise any_fmt w ops Hw Hops (ok_any w ops) [] (cache_inv_nil _ w)) as (_ & _ & Hc).
-  destruct (generate_spec_ok any_fmt w _ p names r Hw Hp I Hc) as [-> _].
-  destruct (generate_spec_ok any_fmt w [] p names r Hw Hp I (cache_inv_nil _ w)) as [-> _]. reflexivity.
-Qed.
-
-(* ... and also as to where the key sits, when the key format is a function of the key's hash component *)
-Lemma order_independent_fmt F w ops p names r :
-  wf_world w = true -> forallb wf_op ops = true -> wf_proxy p = true ->
-  forallb (fmt_op F w) ops = true -> fmt_by_hash F w p = true ->
   fst (generate w (run_cache w [] ops) p names r) = fst (generate w [] p names r).
 Proof.
-  intros Hw Hops Hp HF HFp.
-  assert (Hokp : fmt_is F (p_pkp p) (eff_fmt w p)) by (unfold fmt_by_hash in HFp; apply N.eqb_eq in HFp; exact HFp).
-  destruct (run_pointwise (fmt_is F) w ops Hw Hops (ok_fmt_is F w ops HF) [] (cache_inv_nil _ w)) as (_ & _ & Hc).
-  destruct (generate_spec_ok (fmt_is F) w _ p names r Hw Hp Hokp Hc) as (_ & E & _).
-  destruct (generate_spec_ok (fmt_is F) w [] p names r Hw Hp Hokp (cache_inv_nil _ w)) as (_ & E' & _).
-  rewrite (E (fmt_is_functional F)), (E' (fmt_is_functional F)). reflexivity.
+  intros Hw Hops Hp.
+  destruct (run_pointwise w ops Hw Hops [] (cache_inv_nil w)) as [_ Hc].
+  destruct (generate_spec_ok w _ p names r Hw Hp Hc) as [-> _].
+  destruct (generate_spec_ok w [] p names r Hw Hp (cache_inv_nil w)) as [-> _]. reflexivity.
 Qed.
 
 (* ---- entitlement *)
@@ -294,21 +245,12 @@ Lemma generate_spec_entitled w p names r :
 Proof.
   intros Hw Hp. unfold keys_entitled. apply forallb_forall. intros e Hin.
   destruct (key_of e) as [s|] eqn:K; [|reflexivity].
-  unfold generate_spec in Hin. unfold wf_proxy in Hp. apply andb_true_iff in Hp. destruct Hp as [_ Hi].
+  unfold generate_spec in Hin. unfold wf_proxy in Hp. rename Hp into Hi.
   destruct (verified p) as [i|] eqn:V; [|destruct Hin].
   destruct (negb (needs_push r)); [destruct Hin|].
   destruct (known_cluster w (p_cluster p)) eqn:K1; cbn [negb] in Hin; [|destruct Hin].
   destruct (known_cluster w (config_cluster w)) eqn:K2; cbn [negb] in Hin; [|destruct Hin].
   eapply gen_spec_entitled; eauto using known_cluster_no_slash.
-Qed.
-
-Lemma key_of_erase e : key_of (erase e) = key_of e.
-Proof. destruct e as [n [s|s f]]; reflexivity. Qed.
-
-Lemma keys_entitled_erase w p out : keys_entitled w p (map erase out) = keys_entitled w p out.
-Proof.
-  unfold keys_entitled. induction out as [|e out IH]; cbn [map forallb]; [reflexivity|].
-  rewrite IH, key_of_erase. reflexivity.
 Qed.
 
 Lemma gens_wf ops : forallb wf_op ops = true ->
@@ -326,46 +268,22 @@ Lemma no_key_without_right w ops :
   Forall2 (fun g out => match g with (p, _, _) => keys_entitled w p out = true end) (gens ops) (run w [] ops).
 Proof.
   intros Hw Hops.
-  destruct (run_pointwise any_fmt w ops Hw Hops (ok_any w ops) [] (cache_inv_nil _ w)) as (E & _ & _).
+  destruct (run_pointwise w ops Hw Hops [] (cache_inv_nil w)) as [-> _].
   pose proof (gens_wf ops Hops) as Hg.
-  revert E. generalize (run w [] ops) as outs. induction Hg as [|[[p n] r] l Hp _ IH]; intros outs E.
-  - destruct outs; [constructor|discriminate].
-  - destruct outs as [|out outs]; [discriminate|]. cbn [map] in E. injection E as E1 E2.
-    constructor; [|apply IH; exact E2].
-    rewrite <- keys_entitled_erase, E1, keys_entitled_erase. cbn [spec_of].
-    apply generate_spec_entitled; auto.
+  induction Hg as [|[[p n] r] l Hp _ IH]; cbn; constructor; auto.
+  apply generate_spec_entitled; auto.
 Qed.
 
-(* the responses of a history are, one by one, the cache-free answers: up to the key format always ... *)
-Lemma run_is_pointwise_erased w ops :
+(* the responses of a history are, one by one, the cache-free answers *)
+Lemma run_is_pointwise w ops :
   wf_world w = true -> forallb wf_op ops = true ->
-  map (map erase) (run w [] ops) =
-  map (fun g => match g with (p, n, r) => map erase (fst (generate w [] p n r)) end) (gens ops).
-Proof.
-  intros Hw Hops.
-  destruct (run_pointwise any_fmt w ops Hw Hops (ok_any w ops) [] (cache_inv_nil _ w)) as (-> & _ & _).
-  pose proof (gens_wf ops Hops) as Hg.
-  induction Hg as [|[[p n] r] l Hp _ IH]; cbn; [reflexivity|].
-  destruct (generate_spec_ok any_fmt w [] p n r Hw Hp I (cache_inv_nil _ w)) as [-> _]. f_equal. exact IH.
-Qed.
-
-(* ... and exactly, when the key format is a function of the key's hash component *)
-Lemma run_is_pointwise_fmt F w ops :
-  wf_world w = true -> forallb wf_op ops = true -> forallb (fmt_op F w) ops = true ->
   run w [] ops = map (fun g => match g with (p, n, r) => fst (generate w [] p n r) end) (gens ops).
 Proof.
-  intros Hw Hops HF.
-  destruct (run_pointwise (fmt_is F) w ops Hw Hops (ok_fmt_is F w ops HF) [] (cache_inv_nil _ w)) as (_ & E & _).
-  rewrite (E (fmt_is_functional F)).
-  assert (Hg : Forall (fun g => match g with (p, _, _) => wf_proxy p = true /\ fmt_by_hash F w p = true end) (gens ops)).
-  { clear E. induction ops as [|o rest IH]; cbn; [constructor|].
-    cbn in Hops, HF. apply andb_true_iff in Hops. destruct Hops as [Ho Hr].
-    apply andb_true_iff in HF. destruct HF as [Hf Hfr].
-    destruct o; cbn; auto. }
-  clear E. induction Hg as [|[[p n] r] l [Hp Hf] _ IH]; cbn; [reflexivity|].
-  assert (Hokp : fmt_is F (p_pkp p) (eff_fmt w p)) by (unfold fmt_by_hash in Hf; apply N.eqb_eq in Hf; exact Hf).
-  destruct (generate_spec_ok (fmt_is F) w [] p n r Hw Hp Hokp (cache_inv_nil _ w)) as (_ & E' & _).
-  rewrite (E' (fmt_is_functional F)). f_equal. exact IH.
+  intros Hw Hops.
+  destruct (run_pointwise w ops Hw Hops [] (cache_inv_nil w)) as [-> _].
+  pose proof (gens_wf ops Hops) as Hg.
+  induction Hg as [|[[p n] r] l Hp _ IH]; cbn; [reflexivity|].
+  destruct (generate_spec_ok w [] p n r Hw Hp (cache_inv_nil w)) as [-> _]. f_equal. exact IH.
 Qed.
 
 (* an unauthenticated stream gets nothing, whatever the cache holds, and leaves the cache alone *)
